@@ -7,14 +7,17 @@ Certs == {"valid", "wrongname", "untrusted", "expired", "notyet"}
 Names == {"example.com", "another.example", "192.0.2.7"}
 ITVs == {"", "*", "example.com", "another.example"}
 \* remove_sni: the caller drops the server_name extension (RemoveSNIExtension); verification is unaffected by what is sent
-ConnCfgs(clocks) == [server_name : Names, itv : ITVs, skip_time : BOOLEAN, skip_verify : BOOLEAN, clock : clocks, remove_sni : BOOLEAN]
+ConnCfgs(clocks) == [server_name : Names, itv : ITVs, skip_time : BOOLEAN, skip_verify : BOOLEAN, clock : clocks, remove_sni : BOOLEAN, setsni : {""}]
+\* SetSNI after the hello was built (fresh connections): another name, an IP literal (v4, v6), the empty string
+SetSNIs == {"another.example", "example.com", "192.0.2.10", "[2001:db8::1]", "-empty-"}
+Renamed == {[k EXCEPT !.setsni = x] : k \in {c \in ConnCfgs({0}) : ~c.remove_sni /\ c.server_name = "example.com" /\ ~c.skip_time}, x \in SetSNIs}
 \* fresh: one connection; resumed: a first connection that succeeds and a second one that shares ServerName (the cache key)
 Permissive(k) == [k EXCEPT !.skip_verify = TRUE]
 Strict(k) == [k EXCEPT !.skip_verify = FALSE, !.skip_time = FALSE, !.itv = "", !.clock = 0]
 VARIABLES cert, conns, i, outcome
 vars == <<cert, conns, i, outcome>>
 Init == /\ cert \in Certs
-        /\ conns \in {<<k>> : k \in ConnCfgs({0})}
+        /\ conns \in {<<k>> : k \in ConnCfgs({0}) \cup Renamed}
                  \cup {<<Permissive(k), k>> : k \in ConnCfgs({0, 72, -72})}
                  \cup {<<Strict(k), k>> : k \in {x \in ConnCfgs({0, 72, -72}) : ShouldAccept(cert, Strict(x))}}
         /\ i = 1 /\ outcome = <<>>
